@@ -53,7 +53,11 @@ func objKey(v ssa.Value) string {
 	case *ssa.MakeInterface:
 		return objKey(x.X)
 	}
-	return fmt.Sprintf("%s@%p", v.Name(), v)
+	where := "?"
+	if in, ok := v.(ssa.Instruction); ok && in.Parent() != nil {
+		where = in.Parent().Name()
+	}
+	return v.Name() + "@" + where
 }
 
 // portable: the key means the same object in every function (rooted at a package-level variable).
